@@ -370,6 +370,7 @@ def run_scpi(c: dict):
 # ---------------------------------------------------------------------------
 
 IOERR = "!"
+TIMEOUT = "~"
 
 
 class RefDevice:
@@ -471,20 +472,35 @@ class RefDevice:
         return t
 
 
-def ref_host_reassemble(script):
+def ref_host_reassemble(script, check=False, last=0):
     """Host side of §3.3, written from the specification: concatenate the data of the transfers; the data of a
     transfer are the bytes after the 12-byte header, at most TransferSize of them; EOM counts only if the
-    transfer really carried TransferSize bytes (§3.3.1.1).  -> ('ok', data) | ('error',)"""
+    transfer really carried TransferSize bytes (§3.3.1.1).  With `check` the header of every transfer must answer the
+    request it follows (Table 8: MsgID = DEV_DEP_MSG_IN, bTag = the request's bTag, bTagInverse = its complement);
+    request i carries the i-th tag after `last`.  -> ('ok', data) | ('error', why)"""
     out = b""
+    tag = last
     for t in script:
-        if t == IOERR or len(t) < 12:
-            return ("error",)
+        tag = tag % 255 + 1
+        if t == IOERR:
+            return ("error", "ioerr")
+        if t == TIMEOUT:
+            return ("error", "timeout")
+        if len(t) < 12:
+            return ("error", "short")
+        if check:
+            if t[0] != 2:
+                return ("error", "msgid")
+            if t[1] != tag:
+                return ("error", "btag")
+            if t[2] != (t[1] ^ 0xFF):
+                return ("error", "btaginv")
         size = t[4] | t[5] << 8 | t[6] << 16 | t[7] << 24
         data = t[12:12 + size]
         out += data
         if len(data) >= size and (t[8] & 1):
             return ("ok", out)
-    return ("error",)
+    return ("error", "exhausted")
 
 
 class FakeOut:
@@ -493,6 +509,7 @@ class FakeOut:
     def __init__(self, dev: RefDevice | None, fault=None, budget=4000):
         self.dev, self.fault, self.budget = dev, fault, budget
         self.writes: list[bytes] = []
+        self.cleared = 0
 
     def write(self, data, timeout=None):
         import usb.core
@@ -509,28 +526,36 @@ class FakeOut:
         return len(data)
 
     def clear_halt(self):
-        pass
+        self.cleared += 1
 
 
 class FakeIn:
     bEndpointAddress = 0x81
 
-    def __init__(self, dev: RefDevice | None, script=None, budget=4000):
+    def __init__(self, dev: RefDevice | None, script=None, budget=4000, usb=None):
         self.dev, self.script, self.budget = dev, (list(script) if script is not None else None), budget
         self.sizes: list[int] = []
+        self.usb = usb
+        self.abort_read = None          # size asked by the read inside _abort_bulk_in
 
     def read(self, size, timeout=None):
         import usb.core
         self.budget -= 1
         if self.budget < 0:
             raise _Budget()
-        self.sizes.append(size)
+        if self.usb is not None and self.usb.expect_abort_read:
+            self.usb.expect_abort_read = False
+            self.abort_read = size
+        else:
+            self.sizes.append(size)
         if self.script is not None:
             if not self.script:
                 raise usb.core.USBError("fake timeout", errno=110)
             t = self.script.pop(0)
             if t == IOERR:
                 raise usb.core.USBError("fake io error", errno=5)
+            if t == TIMEOUT:
+                raise usb.core.USBError("fake timeout (late device)", errno=110)
             return array.array("B", t)
         t = self.dev.bulk_in()
         if t is None:
@@ -542,22 +567,37 @@ class FakeIn:
 
 
 class FakeUsb:
-    """the `usb.core.Device` of the instrument: only control transfers of the abort sequences get here"""
+    """the `usb.core.Device` of the instrument: control transfers only.  The USBTMC abort / status requests (bRequest 1..4)
+    are answered from a script of status bytes; an exhausted script answers STATUS_TRANSFER_NOT_IN_PROGRESS (0x81)."""
 
-    def __init__(self):
-        self.ctrl: list[tuple] = []
+    def __init__(self, statuses=()):
+        self.ctrl: list[tuple] = []          # (bRequest, wValue) of the USBTMC requests 1..4
+        self.vendor: list[tuple] = []        # everything else (Advantest lock/unlock, …)
+        self.statuses = list(statuses)
+        self.expect_abort_read = False
+        self.calls = 0
 
     def ctrl_transfer(self, bmRequestType=None, bRequest=None, wValue=0, wIndex=0, data_or_wLength=None, timeout=None):
-        self.ctrl.append((bRequest, wValue))
-        if len(self.ctrl) > 50:
+        self.calls += 1
+        if self.calls > 200:
             raise _Budget()
-        return array.array("B", [0x81, 0, 0, 0, 0, 0, 0, 0])   # STATUS_TRANSFER_NOT_IN_PROGRESS
+        if bRequest in (1, 2, 3, 4):
+            self.ctrl.append((bRequest, wValue))
+            st = self.statuses.pop(0) if self.statuses else 0x81
+            if bRequest == 3 and st == 1:
+                self.expect_abort_read = True
+            return array.array("B", [st, wValue & 0xFF, 0, 0, 0, 0, 0, 0])
+        self.vendor.append((bRequest, wValue))
+        return array.array("B", [1, 0, 0, 0, 0, 0, 0, 0])
 
     def abort_tag(self):
         for req, val in self.ctrl:
             if req in (1, 3):
                 return val
         return None
+
+    def show(self):
+        return ",".join(f"{a}:{b}" for a, b in self.ctrl) if self.ctrl else "-"
 
 
 class _NoSleep:
@@ -567,19 +607,41 @@ class _NoSleep:
         return None
 
 
-def _mk_inst(last, mts, term_char=None, rigol=False, adv=False):
+def _mk_inst(last, mts, term_char=None, rigol=False, adv=False, ieee=False, statuses=()):
     from qmi.core import usbtmc
     usbtmc.time = _NoSleep
-    usb = FakeUsb()
+    usb = FakeUsb(statuses)
     inst = usbtmc.Instrument(device=usb)
     inst.connected = True
     inst.max_transfer_size = mts
     inst.last_btag = last
     inst.term_char = term_char
     inst.rigol_quirk = rigol
-    inst.rigol_quirk_ieee_block = False
+    inst.rigol_quirk_ieee_block = ieee
     inst.advantest_quirk = adv
     return inst, usb
+
+
+_CHECK_HDR = None
+
+
+def checks_bulk_in_header() -> bool:
+    """Does the tree under test validate MsgID / bTag / bTagInverse of a Bulk-IN header?  (probe: a well-formed reply with
+    a foreign bTag; the pinned tree returns its payload.)  The model takes the answer as `Cfg.checkHdr`."""
+    global _CHECK_HDR
+    if _CHECK_HDR is None:
+        from qmi.core import usbtmc
+        inst, _ = _mk_inst(5, 64)
+        inst.bulk_out_ep = FakeOut(None)
+        inst.bulk_in_ep = FakeIn(None, [bytes([2, 77, 77 ^ 0xFF, 0, 1, 0, 0, 0, 1, 0, 0, 0, 65])])
+        try:
+            inst.read_raw()
+            _CHECK_HDR = False
+        except usbtmc.UsbtmcException:
+            _CHECK_HDR = True
+        finally:
+            _drop(inst)
+    return _CHECK_HDR
 
 
 def _drop(inst):
@@ -587,11 +649,21 @@ def _drop(inst):
 
 
 def _script_items(script) -> str:
-    return ",".join(IOERR if t == IOERR else hxi(t) for t in script) if script else "-"
+    return ",".join(t if t in (IOERR, TIMEOUT) else hxi(t) for t in script) if script else "-"
 
 
 def _script_of(c):
-    return [IOERR if s == IOERR else unhx(s) for s in c["script"]]
+    return [s if s in (IOERR, TIMEOUT) else unhx(s) for s in c["script"]]
+
+
+def _fmt_w(head, inst, usb, ep) -> str:
+    return (f"{head} tag={inst.last_btag} abort={on(usb.abort_tag())} ctrl={usb.show()} clr={min(ep.cleared, 1)} "
+            f"sent={items(ep.writes)}")
+
+
+def _fmt_r(head, inst, usb, ep, inep, left) -> str:
+    return (f"{head} tag={inst.last_btag} abort={on(usb.abort_tag())} ctrl={usb.show()} ard={on(inep.abort_read)} "
+            f"reqs={items(ep.writes)} sizes={nats(inep.sizes)} left={left}")
 
 
 def run_usb(c: dict):
@@ -659,10 +731,11 @@ def run_usb(c: dict):
         last, mts, data = c["last"], c["mts"], unhx(c["data"])
         fault = c.get("fault")
         fl = "-" if fault is None else f"{fault[0]}:{'t' if fault[1] else 'e'}"
-        line = f"u.write {last} {mts} {fl} {hx(data)}"
+        ctrl = c.get("ctrl", [])
+        line = f"u.write {last} {mts} {fl} {nats(ctrl)} {hx(data)}"
         dev = RefDevice()
         dev.prev_tag = c.get("devprev", last if last else None)
-        inst, usb = _mk_inst(last, mts)
+        inst, usb = _mk_inst(last, mts, statuses=ctrl)
         inst.bulk_out_ep = ep = FakeOut(dev, tuple(fault) if fault else None, budget=len(data) + 8)
         inst.bulk_in_ep = FakeIn(dev)
         try:
@@ -673,9 +746,10 @@ def run_usb(c: dict):
             raised = e
             head = exc_name(e)
         if head == "hang":
-            out = f"hang tag={last} abort=- sent=-"
+            out = f"hang tag={last} abort=- ctrl=- clr=0 sent=-"
         else:
-            out = f"{head} tag={inst.last_btag} abort={on(usb.abort_tag())} sent={items(ep.writes)}"
+            out = _fmt_w(head, inst, usb, ep)
+        inst_last = inst.last_btag
         _drop(inst)
         clause = None
         if mts >= 1 and fault is None:
@@ -689,6 +763,8 @@ def run_usb(c: dict):
                 clause = "device-decodes-different-payload"
         elif fault is not None and fault[0] < max(1, -(-len(data) // max(mts, 1))) and data and mts >= 1 and raised is None:
             clause = "endpoint-error-swallowed"
+        if clause is None and head != "hang" and usb.abort_tag() is not None and usb.abort_tag() != inst_last:
+            clause = "abort-names-wrong-btag"        # USBTMC 4.2.1.2: wValue = bTag of the transfer to abort
         info["ntransfers"] = len(ep.writes)
         info["nontrivial"] = len(data) > 0
         return line, out, clause, info
@@ -696,17 +772,19 @@ def run_usb(c: dict):
     if kind == "u.read":
         # read_raw against the reference device (interactive) or against a script (corrupted / quirk cases)
         last, mts, tc, num = c["last"], c["mts"], c.get("tc"), c.get("num", -1)
-        rigol, adv = bool(c.get("rigol", 0)), bool(c.get("adv", 0))
-        inst, usb = _mk_inst(last, mts, tc, rigol, adv)
+        rigol, adv, ieee = bool(c.get("rigol", 0)), bool(c.get("adv", 0)), bool(c.get("ieee", 0))
+        chk = checks_bulk_in_header()
+        ctrl = c.get("ctrl", [])
+        inst, usb = _mk_inst(last, mts, tc, rigol, adv, ieee, statuses=ctrl)
         if "script" in c:
             dev = None
             script = _script_of(c)
-            inep = FakeIn(None, script)
+            inep = FakeIn(None, script, usb=usb)
         else:
             reply = unhx(c["reply"])
             dev = RefDevice(reply, c.get("chunks", ()), [unhx(p) for p in c.get("pads", ())])
             dev.prev_tag = last if last else None
-            inep = FakeIn(dev)
+            inep = FakeIn(dev, usb=usb)
         inst.bulk_out_ep = ep = FakeOut(dev)
         inst.bulk_in_ep = inep
         try:
@@ -721,12 +799,15 @@ def run_usb(c: dict):
             left = 0
         else:
             left = len(inep.script)
-        line = f"u.read {last} {mts} {on(tc)} {int(rigol)} {int(adv)} {num} {_script_items(script)}"
-        out = (f"{head} tag={inst.last_btag} abort={on(usb.abort_tag())} reqs={items(ep.writes)} "
-               f"sizes={nats(inep.sizes)} left={left}")
+        line = (f"u.read {last} {mts} {on(tc)} {int(rigol)} {int(adv)} {int(ieee)} {int(chk)} {num} {nats(ctrl)} "
+                f"{_script_items(script)}")
+        out = _fmt_r(head, inst, usb, ep, inep, left)
+        inst_last = inst.last_btag
         _drop(inst)
         clause = None
-        if dev is not None:
+        if usb.abort_tag() is not None and usb.abort_tag() != inst_last:
+            clause = "abort-names-wrong-btag"        # USBTMC 4.2.1.4: wValue = bTag of the transfer to abort
+        elif dev is not None:
             want = reply if num <= 0 else reply[:num]
             if dev.violations:
                 clause = "device-rejects-request:" + dev.violations[0]
@@ -738,23 +819,276 @@ def run_usb(c: dict):
                 clause = "rest-of-message-disturbed"
             info["ntransfers"] = len(script)
         elif not rigol and not adv and num <= 0 and mts < 2 ** 32:
-            ref = ref_host_reassemble(script)
+            # the protocol's own rules, header integrity included (Table 8): a reply that does not answer the request
+            # must raise, it is not the data the driver asked for (stale reply after a time-out, lost transfer, …)
+            ref = ref_host_reassemble(script, True, last)
             cls = c.get("corrupt", "")
             info["class"] = cls or "scripted"
-            if cls == "truncated-header" and raised is None:
-                clause = "truncated-header-accepted"
-            elif ref[0] == "error" and raised is None:
-                clause = "incomplete-reply-accepted"
-            elif ref[0] == "ok" and raised is not None:
-                clause = "valid-reply-rejected"
-            elif ref[0] == "ok" and bytes(d) != ref[1]:
-                clause = "driver-receives-different-data"
-            elif cls in ("msgid", "btag", "btaginv", "reserved") and raised is None and "payload" in c \
-                    and bytes(d) != unhx(c["payload"]):
-                clause = "tag-field-corruption-yields-wrong-data"
-            if cls in ("msgid", "btag", "btaginv") and raised is None:
-                info["unchecked_tag_field"] = 1
+            if ref[0] == "ok":
+                if raised is not None:
+                    clause = "valid-reply-rejected"
+                elif bytes(d) != ref[1]:
+                    clause = "driver-receives-different-data"
+            elif raised is None:
+                why = ref[1]
+                if why in ("msgid", "btag", "btaginv"):
+                    clause = "bulk-in-header-mismatch-accepted:" + why
+                    if "payload" in c and bytes(d) != unhx(c["payload"]):
+                        info["wrong_data"] = 1
+                elif why == "short":
+                    clause = "truncated-header-accepted"
+                else:
+                    clause = "incomplete-reply-accepted"
+        elif rigol and not adv and num <= 0 and "rig_expect" in c and not chk:
+            info["class"] = "rigol-conforming"
+            if raised is not None:
+                clause = "rigol-valid-reply-rejected"
+            elif bytes(d) != unhx(c["rig_expect"]):
+                clause = "rigol-driver-receives-different-data"
+            elif len(ep.writes) != 1:
+                clause = "rigol-request-repeated"        # a second request makes these devices restart the transfer
         info["nontrivial"] = len(script) > 0
+        return line, out, clause, info
+
+    if kind == "u.trig":
+        sup, mts, last = bool(c["sup"]), c["mts"], c["last"]
+        line = f"u.trig {int(sup)} {mts} {last}"
+        dev = RefDevice()
+        dev.prev_tag = last if last else None
+        inst, usb = _mk_inst(last, mts)
+        inst.support_trigger = sup
+        inst.bulk_out_ep = ep = FakeOut(dev if not sup else None, budget=20)
+        try:
+            inst.trigger()
+            head, raised = "ok", None
+        except BaseException as e:  # noqa
+            head, raised = exc_name(e), e
+        out = f"{head} tag={inst.last_btag} sent={items(ep.writes)}"
+        _drop(inst)
+        clause = None
+        if raised is not None:
+            clause = "trigger-raised"
+        elif sup:
+            # USB488 §3.2.1.1: MsgID 128, bTag, bTagInverse, 9 reserved zero bytes: a 12-byte Bulk-OUT message
+            t = ep.writes[0] if len(ep.writes) == 1 else b""
+            if len(t) != 12 or t[0] != 128 or not (1 <= t[1] <= 255) or t[1] == last or t[2] != (t[1] ^ 0xFF) or any(t[3:]):
+                clause = "usb488-trigger-malformed"
+        elif dev.violations or dev.messages != [b"*TRG"]:
+            clause = "trigger-message-not-decoded"
+        return line, out, clause, info
+
+    if kind == "u.ask":
+        # ask_raw = write_raw then read_raw on one instrument and one reference device
+        last, mts, tc, num = c["last"], c["mts"], c.get("tc"), c.get("num", -1)
+        adv = bool(c.get("adv", 0))
+        chk = checks_bulk_in_header()
+        fault, ctrl = c.get("fault"), c.get("ctrl", [])
+        fl = "-" if fault is None else f"{fault[0]}:{'t' if fault[1] else 'e'}"
+        data, reply = unhx(c["data"]), unhx(c["reply"])
+        dev = RefDevice(None if c.get("late") else reply, c.get("chunks", ()), [unhx(p) for p in c.get("pads", ())])
+        dev.prev_tag = last if last else None
+        inst, usb = _mk_inst(last, mts, tc, False, adv, False, statuses=ctrl)
+        inst.advantest_locked = bool(c.get("locked", 0))
+        inst.bulk_out_ep = ep = FakeOut(dev, tuple(fault) if fault else None, budget=len(data) + 40)
+        inst.bulk_in_ep = inep = FakeIn(dev, usb=usb)
+        # observe the boundary between the two halves
+        mark = {}
+        real_read = inst.read_raw
+
+        def read_raw(n=-1):
+            mark["tag"], mark["nw"], mark["ctrl"], mark["clr"] = inst.last_btag, len(ep.writes), list(usb.ctrl), ep.cleared
+            ep.fault = None           # the scripted endpoint fault belongs to the write half
+            return real_read(n)
+        inst.read_raw = read_raw
+        try:
+            d = inst.ask_raw(data, num)
+            raised, head = None, f"ok {hx(d)}"
+        except BaseException as e:  # noqa
+            raised, d, head = e, None, exc_name(e)
+        script = list(dev.responses)
+        line = (f"u.ask {last} {mts} {on(tc)} 0 {int(adv)} 0 {int(chk)} {num} {fl} {nats(ctrl)} {hx(data)} "
+                f"{_script_items(script)}")
+        def show(l):
+            return ",".join(f"{a}:{b}" for a, b in l) if l else "-"
+        if "tag" in mark:
+            wa = next((v for r, v in mark["ctrl"] if r == 1), None)
+            w = f"ok tag={mark['tag']} abort={on(wa)} ctrl={show(mark['ctrl'])} clr={min(mark['clr'], 1)} sent={items(ep.writes[:mark['nw']])}"
+            rc = usb.ctrl[len(mark["ctrl"]):]
+            ra = next((v for r, v in rc if r == 3), None)
+            r = (f"{head} tag={inst.last_btag} abort={on(ra)} ctrl={show(rc)} ard={on(inep.abort_read)} "
+                 f"reqs={items(ep.writes[mark['nw']:])} sizes={nats(inep.sizes)} left=0")
+            out = f"{w} | {r}"
+        else:
+            out = f"{_fmt_w(head, inst, usb, ep)} | -"
+        locked_before = bool(c.get("locked", 0))
+        _drop(inst)
+        clause = None
+        if adv and not locked_before and usb.vendor != [(0xA0, 1), (0xA0, 0)]:
+            clause = "advantest-lock-not-paired"
+        elif fault is None and not adv and not c.get("late"):
+            want = reply if num <= 0 else reply[:num]
+            if dev.violations:
+                clause = "device-rejects:" + dev.violations[0]
+            elif raised is not None:
+                clause = "ask-raised"
+            elif dev.messages != ([data] if data else []):
+                clause = "device-decodes-different-payload"
+            elif bytes(d) != want:
+                clause = "driver-receives-different-data"
+        elif fault is not None and data and fault[0] < -(-len(data) // mts) and raised is None:
+            clause = "endpoint-error-swallowed"
+        info["nontrivial"] = len(data) > 0 and len(reply) > 0
+        return line, out, clause, info
+
+    if kind == "u.session":
+        # several calls on ONE instrument against ONE reference device: the bTag state is carried from call to call,
+        # endpoint faults and abort sequences happen in between.  One model line per call (state explicit on each line).
+        mts, tc = c["mts"], c.get("tc")
+        chk = checks_bulk_in_header()
+        dev = RefDevice()
+        dev.prev_tag = c["last"] if c["last"] else None
+        inst, usb0 = _mk_inst(c["last"], mts, tc)
+        lines, outs, clause = [], [], None
+        expect_msgs = []
+        for op in c["ops"]:
+            last = inst.last_btag
+            usb = FakeUsb(op.get("ctrl", []))
+            inst.device = usb
+            fault = op.get("fault")
+            fl = "-" if fault is None else f"{fault[0]}:{'t' if fault[1] else 'e'}"
+            ep = FakeOut(dev, tuple(fault) if fault else None, budget=4000)
+            inep = FakeIn(dev, usb=usb)
+            inst.bulk_out_ep, inst.bulk_in_ep = ep, inep
+            k = op["op"]
+            try:
+                if k == "w":
+                    data = unhx(op["data"])
+                    lines.append(f"u.write {last} {mts} {fl} {nats(op.get('ctrl', []))} {hx(data)}")
+                    try:
+                        inst.write_raw(data)
+                        head = "ok"
+                        if data:
+                            expect_msgs.append(data)
+                    except BaseException as e:  # noqa
+                        head = exc_name(e)
+                        dev.acc.clear()            # the device drops the unfinished message when the host aborts
+                    outs.append(_fmt_w(head, inst, usb, ep))
+                elif k == "t":
+                    inst.support_trigger = bool(op["sup"])
+                    lines.append(f"u.trig {int(op['sup'])} {mts} {last}")
+                    pre = len(dev.violations)
+                    inst.trigger()
+                    if op["sup"]:
+                        del dev.violations[pre:]      # MsgID 128 is USB488, which the USBTMC-only reference does not know
+                    else:
+                        expect_msgs.append(b"*TRG")
+                    outs.append(f"ok tag={inst.last_btag} sent={items(ep.writes)}")
+                elif k == "r":
+                    reply = unhx(op["reply"])
+                    dev.reply, dev.chunks, dev.pads = reply, list(op.get("chunks", ())), [unhx(x) for x in op.get("pads", ())]
+                    if op.get("late"):
+                        dev.reply = None               # the device has nothing to say yet: time-out, abort
+                    n0 = len(dev.responses)
+                    try:
+                        d = inst.read_raw(op.get("num", -1))
+                        head = f"ok {hx(d)}"
+                        want = reply if op.get("num", -1) <= 0 else reply[:op["num"]]
+                        if bytes(d) != want and clause is None:
+                            clause = "driver-receives-different-data"
+                    except BaseException as e:  # noqa
+                        head = exc_name(e)
+                        if not op.get("late") and clause is None:
+                            clause = "read-raised"
+                    dev.reply = None
+                    script = dev.responses[n0:]
+                    lines.append(f"u.read {last} {mts} {on(tc)} 0 0 0 {int(chk)} {op.get('num', -1)} {nats(op.get('ctrl', []))} "
+                                 f"{_script_items(script)}")
+                    outs.append(_fmt_r(head, inst, usb, ep, inep, 0))
+            except BaseException as e:  # noqa
+                outs.append(exc_name(e))
+                if clause is None:
+                    clause = "call-raised"
+        _drop(inst)
+        if clause is None:
+            if dev.violations:
+                clause = "device-rejects:" + dev.violations[0]
+            elif dev.messages != expect_msgs:
+                clause = "device-decodes-different-payloads"
+        info["nontrivial"] = len(c["ops"]) > 1
+        return lines, outs, clause, info
+
+    if kind == "u.stb":
+        # read_stb() on a USB488 interface: control request with its own tag cycle, optional interrupt-IN endpoint
+        from qmi.core import usbtmc
+        last, b, intr = c["last"], c["b"], c.get("intr")
+        line = f"u.stb {last} {b[0]} {b[1]} {b[2]} {nats(intr) if intr else '-'}"
+        inst, _ = _mk_inst(0, 64)
+        inst.last_rstb_btag = last
+
+        class _If:
+            bInterfaceProtocol = usbtmc.USB488_bInterfaceProtocol
+            index = 0
+        inst.iface = _If()
+        seen = {}
+
+        class _Dev:
+            def ctrl_transfer(self, bmRequestType=None, bRequest=None, wValue=0, wIndex=0, data_or_wLength=None, timeout=None):
+                seen["req"], seen["wvalue"] = bRequest, wValue
+                return array.array("B", b)
+        inst.device = _Dev()
+
+        class _Intr:
+            def read(self, n, timeout=None):
+                seen["intr"] = 1
+                return array.array("B", intr)
+        inst.interrupt_in_ep = _Intr() if intr else None
+        try:
+            v = inst.read_stb()
+            head, raised = f"ok {v}", None
+        except BaseException as e:  # noqa
+            head, raised = exc_name(e), e
+        out = f"{head} rstb={inst.last_rstb_btag} wvalue={seen.get('wvalue')} intr={seen.get('intr', 0)}"
+        _drop(inst)
+        # USB488 §4.3.1: bTag of READ_STATUS_BYTE is 2..127; the response repeats it; the interrupt packet carries 0x80|bTag
+        t = seen.get("wvalue", 0)
+        clause = None
+        if seen.get("req") != 128:
+            clause = "stb-wrong-request"
+        elif raised is None and (b[0] != 1 or b[1] != t or (intr and intr[0] != (0x80 | t))):
+            clause = "stb-mismatch-accepted"
+        info["class"] = "tag-in-range" if 2 <= t <= 127 else "tag-out-of-range"
+        return line, out, clause, info
+
+    if kind == "u.clear":
+        force, ctrl = bool(c["force"]), c.get("ctrl", [])
+        line = f"u.clear {int(force)} {nats(ctrl)}"
+        inst, usb = _mk_inst(c.get("last", 7), 64, statuses=())
+
+        class _If:
+            index = 0
+        inst.iface = _If()
+        inst.force_clear_bulk_in = force
+        st = list(ctrl)
+        calls = []
+
+        class _Dev:
+            def ctrl_transfer(self, bmRequestType=None, bRequest=None, wValue=0, wIndex=0, data_or_wLength=None, timeout=None):
+                calls.append((bRequest, wValue))
+                if len(calls) > 100:
+                    raise _Budget()
+                return array.array("B", [st.pop(0) if st else 0x81, 0])
+        inst.device = _Dev()
+        inst.bulk_out_ep = ep = FakeOut(None)
+        inst.bulk_in_ep = inep = FakeOut(None)
+        try:
+            inst.clear()
+            head = "ok"
+        except BaseException as e:  # noqa
+            head = exc_name(e)
+        out = (f"{head} ctrl={','.join(f'{a}:{b_}' for a, b_ in calls) if calls else '-'} out={min(ep.cleared, 1)} "
+               f"in={min(inep.cleared, 1)}")
+        clause = None if inst.last_btag == c.get("last", 7) else "clear-moves-btag"
+        _drop(inst)
         return line, out, clause, info
 
     if kind == "u.dev":
@@ -777,8 +1111,9 @@ def run_usb(c: dict):
     if kind == "u.host":
         # the model's host-side reference (hostSpec) against the Python reference host on the same transfers
         script = _script_of(c)
-        line = f"u.host {_script_items(script)}"
-        ref = ref_host_reassemble(script)
+        chk, last = bool(c.get("chk", 0)), c.get("last", 0)
+        line = f"u.host {int(chk)} {last} {_script_items(script)}"
+        ref = ref_host_reassemble(script, chk, last)
         out = f"ok {hx(ref[1])}" if ref[0] == "ok" else "error"
         info["nontrivial"] = len(script) > 0
         info["class"] = ref[0]
@@ -908,6 +1243,14 @@ def gen_scpi(rng, big: bool) -> dict:
 _TAGS = [0, 1, 2, 127, 128, 253, 254, 255]
 
 
+def _ctrl(rng):
+    """status bytes the device gives to the abort / check-status control requests"""
+    r = rng.random()
+    if r < 0.3:
+        return []
+    return [rng.choice([1, 1, 2, 2, 0x80, 0x81, 0]) for _ in range(rng.randint(1, 5))]
+
+
 def _last(rng):
     return rng.choice(_TAGS) if rng.random() < 0.7 else rng.randrange(256)
 
@@ -980,6 +1323,13 @@ def _corrupt(rng, script, what):
     elif what == "drop":
         del script[i]
         return script
+    elif what == "stale":
+        # the answer to an earlier request (bTag of the request before ours) arrives first: late reply after a time-out
+        first = script[0]
+        prev = (first[1] - 2) % 255 + 1
+        body = bytes(rng.choice(b"STALE\x00\xff") for _ in range(rng.choice([1, 2, 5])))
+        script.insert(0, bytes([2, prev, prev ^ 0xFF, 0]) + len(body).to_bytes(4, "little") + bytes([1, 0, 0, 0]) + body)
+        return script
     elif what == "ioerr":
         script[i] = IOERR
         return script
@@ -987,7 +1337,7 @@ def _corrupt(rng, script, what):
     return script
 
 
-_CORRUPTIONS = ["msgid", "btag", "btaginv", "reserved", "size", "eom", "attr-high", "truncated-header", "drop", "ioerr"]
+_CORRUPTIONS = ["msgid", "btag", "btaginv", "reserved", "size", "eom", "attr-high", "truncated-header", "drop", "ioerr", "stale"]
 
 
 def gen_usb(rng, big: bool) -> dict:
@@ -1016,11 +1366,62 @@ def gen_usb(rng, big: bool) -> dict:
         r = rng.random()
         if r < 0.12:
             c["fault"] = [rng.randint(0, max(0, -(-n // mts))), int(rng.random() < 0.5)]
+            c["ctrl"] = _ctrl(rng)
         elif r < 0.14:
             c["mts"] = 0
         elif r < 0.16 and big:
             c["mts"] = rng.choice([1024, 4096])
             c["data"] = hx(_bytes(rng, c["mts"] * rng.choice([1, 2, 3]) + rng.choice([-1, 0, 1]), _USB_ALPHA))
+        return c
+    if k < 0.452:
+        t = rng.choice([0, 1, 2, 126, 127, 128, 255]) if rng.random() < 0.7 else rng.randrange(256)
+        nt = t % 128 + 1
+        nt = 2 if nt < 2 else nt
+        b = [rng.choice([1, 1, 1, 2, 0x80]), rng.choice([nt, nt, nt, nt & 0x7F, nt + 1, 0]), rng.randrange(256)]
+        intr = None if rng.random() < 0.5 else [rng.choice([nt + 128, nt + 128, (nt + 128) & 0xFF, nt, 0x80]) & 0xFF, rng.randrange(256)]
+        return {"kind": "u.stb", "last": t, "b": b, "intr": intr}
+    if k < 0.455:
+        return {"kind": "u.clear", "force": int(rng.random() < 0.6), "ctrl": _ctrl(rng), "last": last}
+    if k < 0.46:
+        ops = []
+        for _ in range(rng.randint(2, 7)):
+            r = rng.random()
+            if r < 0.45:
+                n = _payload_len(rng, mts)
+                op = {"op": "w", "data": hx(_bytes(rng, n, _USB_ALPHA))}
+                if rng.random() < 0.3 and n:
+                    op["fault"] = [rng.randint(0, max(0, -(-n // mts) - 1)), int(rng.random() < 0.7)]
+                    op["ctrl"] = _ctrl(rng)
+            elif r < 0.85:
+                m = _payload_len(rng, mts)
+                op = {"op": "r", "reply": hx(_bytes(rng, m, _USB_ALPHA)), "chunks": _chunks(rng, m, mts),
+                      "pads": [hx(_bytes(rng, rng.choice([0, 0, 2]))) for _ in range(min(m, 6) + 2)],
+                      "num": rng.choice([-1, -1, -1, max(m, 1), m + 1])}
+                if rng.random() < 0.25:
+                    op["late"] = 1
+                    op["ctrl"] = _ctrl(rng)
+            else:
+                op = {"op": "t", "sup": int(rng.random() < 0.5)}
+            ops.append(op)
+        return {"kind": "u.session", "last": last, "mts": mts, "tc": rng.choice([None, None, 10]), "ops": ops}
+    if k < 0.47:
+        return {"kind": "u.trig", "sup": int(rng.random() < 0.6), "mts": mts, "last": last}
+    if k < 0.53:
+        n = _payload_len(rng, mts)
+        m = _payload_len(rng, mts)
+        c = {"kind": "u.ask", "last": last, "mts": mts, "tc": rng.choice([None, None, 10]), "num": rng.choice([-1, -1, -1, 1, m, m + 1]),
+             "data": hx(_bytes(rng, n, _USB_ALPHA)), "reply": hx(_bytes(rng, m, _USB_ALPHA)), "chunks": _chunks(rng, m, mts),
+             "pads": [hx(_bytes(rng, rng.choice([0, 0, 3]))) for _ in range(min(m, 8) + 2)]}
+        r = rng.random()
+        if r < 0.2:
+            c["fault"] = [rng.randint(0, max(0, -(-n // mts))), int(rng.random() < 0.6)]
+            c["ctrl"] = _ctrl(rng)
+        elif r < 0.3:
+            c["late"] = 1                       # the device does not answer: time-out and abort inside the read half
+            c["ctrl"] = _ctrl(rng)
+        if rng.random() < 0.25:
+            c["adv"] = 1
+            c["locked"] = int(rng.random() < 0.4)
         return c
     if k < 0.70:
         # conforming device, every kind of split
@@ -1046,19 +1447,62 @@ def gen_usb(rng, big: bool) -> dict:
             c["corrupt"] = what
         elif r < 0.8:
             c["rigol"] = 1
-            if rng.random() < 0.5:      # RIGOL style: header only in the first packet, rest raw
+            k = rng.random()
+            if k < 0.75:
+                # RIGOL style reference device: the header (TransferSize = size of the whole message) only in the first
+                # packet, the rest raw; the last packet may carry trailing bytes
+                ieee = rng.random() < 0.5
+                need = 1
                 total = reply
+                hdr_size = len(total)
+                if ieee:
+                    c["ieee"] = 1
+                    blk = ref_block_encode(reply, None if rng.random() < 0.7 else rng.randint(1, 9))
+                    total = blk + rng.choice([b"", b"\n"])
+                    hdr_size = rng.choice([len(total), len(total), len(total) + 7, 1000])   # "the header is lying"
+                    want = blk
+                    need = len(blk) - len(reply)      # the quirk reads the block header from the first packet only
+                    m = rng.random()
+                    if m < 0.35:        # malformed / odd block headers: what int() accepts and what it does not
+                        pos = rng.randrange(1, min(len(blk), 5))
+                        total = total[:pos] + bytes([rng.choice(b" +-_x\t0129#\x00")]) + total[pos + 1:]
+                        want = None
+                    elif m < 0.45:
+                        total = total[:rng.randint(1, 2)]
+                        hdr_size = len(total)
+                        want = None
+                else:
+                    want = total
+                    if rng.random() < 0.3:
+                        c["ieee"] = 1           # flag on, but the data need not start with '#'
+                        if total[:1] == b"#":
+                            want = None
                 first = script[0][:12]
-                first = first[:4] + len(total).to_bytes(4, "little") + first[8:]
-                cut = rng.randint(0, len(total))
-                script = [first + total[:cut]] + ([total[cut:] + b"\0" * rng.choice([0, 1, 3])] if cut < len(total) else [])
+                first = first[:4] + hdr_size.to_bytes(4, "little") + first[8:]
+                cut = rng.randint(1, len(total)) if rng.random() < 0.9 else 0
+                script = [first + total[:cut]]
+                rest = total[cut:]
+                while rest:
+                    j = rng.randint(1, len(rest))
+                    script.append(rest[:j])
+                    rest = rest[j:]
+                if cut and rng.random() < 0.5:
+                    script[-1] = script[-1] + b"\0" * rng.choice([1, 3])
+                if want is not None and cut >= need and (len(script) > 1 or hdr_size >= cut):
+                    c["rig_expect"] = hx(want)
         elif r < 0.88:
             c["adv"] = 1
         if rng.random() < 0.2:
             c["num"] = rng.choice([1, 2, n - 1, n, n + 1, mts, mts + 1])
-        c["script"] = [IOERR if t == IOERR else hxi(t) for t in script]
         if rng.random() < 0.15:
-            return {"kind": "u.host", "script": c["script"]}
+            script.insert(rng.randint(0, len(script)), TIMEOUT)      # the device is late once; what follows is still queued
+            c["corrupt"] = (c.get("corrupt", "") + "+late").lstrip("+")
+            c.pop("rig_expect", None)
+        if rng.random() < 0.3:
+            c["ctrl"] = _ctrl(rng)
+        c["script"] = [t if t in (IOERR, TIMEOUT) else hxi(t) for t in script]
+        if rng.random() < 0.15:
+            return {"kind": "u.host", "script": [t for t in c["script"]], "chk": int(rng.random() < 0.5), "last": last}
         return c
     # the two device decoders (model's and the Python reference) on host output, valid and mutated
     n = _payload_len(rng, mts) or 1
@@ -1103,7 +1547,7 @@ def _input_class(c: dict) -> str:
         return "empty" if n == 0 else ("single" if n <= mts else "multi")
     if k == "u.read":
         if "script" in c:
-            return c.get("corrupt") or ("rigol" if c.get("rigol") else "adv" if c.get("adv") else "scripted")
+            return c.get("corrupt") or (("rigol-ieee" if c.get("ieee") else "rigol") if c.get("rigol") else "adv" if c.get("adv") else "scripted")
         return "num" if c.get("num", -1) > 0 else "all"
     if k == "s.bin":
         return "flag" if c.get("flag", 1) else "noflag"
@@ -1111,6 +1555,8 @@ def _input_class(c: dict) -> str:
 
 
 def _signature(c: dict, clause: str) -> str:
+    if clause.startswith("bulk-in-header-mismatch-accepted"):
+        return f"{c['kind']}:{clause}"          # one signature per unchecked header field, whatever produced the mismatch
     return f"{c['kind']}:{clause}:{_input_class(c)}"
 
 
@@ -1149,7 +1595,7 @@ def _failure(c: dict, clause: str) -> Failure:
     small = _shrink(c, clause)
     line, out, _, _ = run_case(small)
     return Failure(signature=_signature(small, clause),
-                   summary=f"{clause}: `{line[:300]}` -> `{out[:300]}`",
+                   summary=f"{clause}: `{str(line)[:300]}` -> `{str(out)[:300]}`",
                    replay={"case": small, "clause": clause})
 
 
@@ -1179,21 +1625,27 @@ class C15A(Prop):
                 res.broken.append(Broken("correspondence", f"C15A.harness[{c.get('kind')}]",
                                          f"{type(e).__name__}: {e}", case=c))
                 continue
-            lines.append(line)
-            outs.append(out)
-            kept.append(c)
+            if isinstance(line, list):
+                lines += line
+                outs += out
+                kept += [c] * len(line)
+            else:
+                lines.append(line)
+                outs.append(out)
+                kept.append(c)
             res.note_case(line, nontrivial=info.get("nontrivial", True))
             res.count("kind_" + c["kind"])
             res.count(f"class_{c['kind']}_{_input_class(c)}")
             if "class" in info:
                 res.count(f"ref_{c['kind']}_{info['class']}")
-            res.count("outcome_" + out.split(" ", 1)[0].split(":", 1)[0])
+            for o in (out if isinstance(out, list) else [out]):
+                res.count("outcome_" + o.split(" ", 1)[0].split(":", 1)[0])
             if info.get("ntransfers", 0) > 1:
                 res.count("multi_transfer_cases")
-            if info.get("unchecked_tag_field"):
-                res.count("usbtmc_replies_with_wrong_msgid_or_btag_accepted_payload_intact")
+            if info.get("wrong_data"):
+                res.count("usbtmc_header_mismatch_accepted_and_result_differs_from_what_the_device_sent")
             if len(res.samples) < 8 and c["kind"] in ("u.write", "u.read", "s.bin", "s.ask") and ctx.rng.random() < 0.01:
-                res.sample({"line": line[:240], "impl": out[:240]})
+                res.sample({"line": str(line)[:240], "impl": str(out)[:240]})
             if clause:
                 sig0 = _signature(c, clause)
                 fail_count[sig0] = fail_count.get(sig0, 0) + 1
@@ -1222,9 +1674,9 @@ class C15A(Prop):
         big = not ctx.quick
         n_scpi = ctx.scale(80000, 700000)
         n_usb = ctx.scale(100000, 900000)
+        self._batch(ctx, list(_systematic(ctx.scale(0, 1))), res, "systematic")       # the fixed corpus, first on every seed
         self._batch(ctx, [gen_scpi(ctx.rng, big) for _ in range(n_scpi)], res, "Scpi")
         self._batch(ctx, [gen_usb(ctx.rng, big) for _ in range(n_usb)], res, "Usbtmc")
-        self._batch(ctx, list(_systematic(ctx.scale(0, 1))), res, "systematic")
         res.assumptions.append("ScpiProtocol is given a transport that honours the QMI_Transport contract (C13); "
                                "non-empty response terminator")
         res.assumptions.append("USBTMC: a reply whose MsgID/bTag/bTagInverse do not match the request still carries its payload "
@@ -1266,7 +1718,7 @@ class C15A(Prop):
         c = rp["case"]
         line, out, clause, _ = run_case(c)
         if clause:
-            return Failure(_signature(c, clause), f"{clause}: `{line[:300]}` -> `{out[:300]}`", rp)
+            return Failure(_signature(c, clause), f"{clause}: `{str(line)[:300]}` -> `{str(out)[:300]}`", rp)
         return None
 
 
@@ -1327,6 +1779,60 @@ def _systematic(level: int):
             sc[i] = sc[i][:cut]
             yield {"kind": "u.read", "last": 7, "mts": 3, "tc": None, "num": -1, "payload": hx(b"\x01\x02\x03\x04\x05"),
                    "corrupt": "truncated-header", "script": [hxi(x) for x in sc]}
+    # RIGOL IEEE-block sub-quirk: what int() accepts, what it rejects, headers that lie, split after the block header
+    for body in (b"#15hello", b"#205hello", b"#2 5hello", b"#25 hello", b"#2+5hello", b"#2-1abcd", b"#41_00" + b"x" * 12,
+                 b"#3_10abc", b"#31_abc", b"#41__0abc", b"#0", b"#", b"#a", b"#9", b"#1", b"#15", b"x15hello", b"#2\t5hello",
+                 b"#3-00abc", b"#2-9ab", b"#3\x0b12abcdefghijklmn", b"#15hello\n", b"#1\xb2ab", b"#12ab#12cd"):
+        for hdr in (len(body), 20, 3):
+            first = bytes([2, 10, 245, 0]) + hdr.to_bytes(4, "little") + bytes([1, 0, 0, 0])
+            for cut in sorted({len(body), min(len(body), 5), min(len(body), 2)}):
+                sc = [first + body[:cut]] + ([body[cut:] + b"\0\0"] if cut < len(body) else [])
+                for ieee in (1, 0):
+                    yield {"kind": "u.read", "last": 9, "mts": 64, "tc": None, "num": -1, "rigol": 1, "ieee": ieee,
+                           "script": [hxi(x) for x in sc]}
+    # abort sequences: every script of control statuses up to length 3 (+ a run of PENDING), write fault and late device
+    sts = [1, 2, 0x81, 0x80]
+    scripts = [[]] + [[a] for a in sts] + [[a, b] for a in sts for b in sts] + [[1, 2, 2, 2, x] for x in sts] + \
+        [[1, a, b] for a in sts for b in sts]
+    ok_t = bytes([2, 8, 247, 0, 1, 0, 0, 0, 1, 0, 0, 0, 65])
+    for ctrl in scripts:
+        yield {"kind": "u.write", "last": 6, "mts": 2, "fault": [1, 1], "ctrl": ctrl, "data": "0102030405"}
+        yield {"kind": "u.write", "last": 6, "mts": 2, "fault": [0, 0], "ctrl": ctrl, "data": "0102030405"}
+        for sc in ([TIMEOUT], [TIMEOUT, hxi(ok_t)], [TIMEOUT, IOERR], [TIMEOUT, TIMEOUT, hxi(ok_t)], []):
+            yield {"kind": "u.read", "last": 6, "mts": 8, "tc": None, "num": -1, "ctrl": ctrl, "script": sc}
+        yield {"kind": "u.clear", "force": 1, "ctrl": ctrl}
+        yield {"kind": "u.clear", "force": 0, "ctrl": ctrl}
+    # the two tag cycles over their whole range; trigger in both flavours; ask_raw
+    for last in range(256):
+        yield {"kind": "u.trig", "sup": 1, "mts": 8, "last": last}
+        yield {"kind": "u.stb", "last": last, "b": [1, max(2, last % 128 + 1), 0x55], "intr": None}
+        yield {"kind": "u.stb", "last": last, "b": [1, max(2, last % 128 + 1), 0], "intr": [(max(2, last % 128 + 1) + 128) & 0xFF, 0x42]}
+    for last in (0, 253, 254, 255):
+        yield {"kind": "u.trig", "sup": 0, "mts": 3, "last": last}
+        for n, m in ((1, 1), (3, 4), (4, 3), (7, 9)):
+            yield {"kind": "u.ask", "last": last, "mts": 3, "tc": None, "num": -1, "data": hx(bytes(range(1, n + 1))),
+                   "reply": hx(bytes(range(100, 100 + m))), "chunks": [2, 1], "pads": ["00", "", "aabb"]}
+        for extra in ({"fault": [0, 1], "ctrl": [1, 1]}, {"late": 1, "ctrl": [1]}, {}):
+            for locked in (0, 1):
+                yield {"kind": "u.ask", "last": last, "mts": 3, "tc": None, "num": -1, "data": "0102", "reply": "0a0b", "chunks": [],
+                       "pads": [], "adv": 1, "locked": locked, **extra}
+        # one object across calls: write, faulted write + abort, trigger, late read + abort, read, write
+        yield {"kind": "u.session", "last": last, "mts": 2, "tc": None, "ops": [
+            {"op": "w", "data": "010203"}, {"op": "w", "data": "0405060708", "fault": [1, 1], "ctrl": [1, 2, 1]},
+            {"op": "t", "sup": 1}, {"op": "r", "reply": "aabbcc", "late": 1, "ctrl": [1]},
+            {"op": "r", "reply": "aabbcc", "chunks": [1, 2], "pads": ["", "00"], "num": -1},
+            {"op": "w", "data": "09"}, {"op": "w", "data": "09"}, {"op": "t", "sup": 0},
+            {"op": "r", "reply": "ddeeff0011", "chunks": [], "pads": [], "num": 2},
+            {"op": "r", "reply": "0011", "chunks": [], "pads": [], "num": -1}]}
+    # stale / lost reply transfers (header integrity)
+    good = _valid_script(random.Random(3), b"\x10\x20\x30\x40\x50\x60\x70", 5, 3)
+    for i in range(len(good)):
+        yield {"kind": "u.read", "last": 5, "mts": 3, "tc": None, "num": -1, "payload": "10203040506070", "corrupt": "drop",
+               "script": [hxi(x) for j, x in enumerate(good) if j != i]}
+        yield {"kind": "u.read", "last": 5, "mts": 3, "tc": None, "num": -1, "payload": "10203040506070", "corrupt": "dup",
+               "script": [hxi(x) for x in good[:i + 1] + good[i:]]}
+    yield {"kind": "u.read", "last": 5, "mts": 64, "tc": None, "num": -1, "payload": "4f4b", "corrupt": "stale",
+           "script": ["0205fa00050000000100000053" + "54414c45", "0206f900020000000100000" + "04f4b"]}
     # SCPI blocks: every length across the digit-count boundaries, canonical and zero-padded headers
     lens = list(range(0, 13)) + [99, 100, 101, 999, 1000, 1001]
     if level >= 1:
